@@ -192,6 +192,26 @@ fn mock(prog: &[Instruction], w: &HashMap<&'static str, IrValue>, inst: Vec<(IrV
     }
 }
 
+/// Region names (with multiplicities, sorted) of the witness-free synthesis of `prog`.
+pub fn region_histogram(prog: &[Instruction]) -> Result<Vec<(String, usize)>, String> {
+    let names = region_names_of(prog)?;
+    let mut m: std::collections::BTreeMap<String, usize> = Default::default();
+    for n in names {
+        *m.entry(n).or_default() += 1;
+    }
+    Ok(m.into_iter().collect())
+}
+
+fn region_names_of(prog: &[Instruction]) -> Result<Vec<String>, String> {
+    match catch(|| {
+        let rel = ZkirRelation::from_instructions(prog).map_err(|e| classify_zkir(&e))?;
+        crate::rec::region_names(&MidnightCircuit::new(&rel, Value::unknown(), Value::unknown(), Some(8)))
+    }) {
+        Ok(r) => r,
+        Err(_) => Err("panic".into()),
+    }
+}
+
 pub fn run_case(c: &Case, with_mock: bool) -> Outcome {
     let kind = if with_mock { "run" } else { "run0" };
     let body = fmt_case_body(c);
@@ -225,6 +245,20 @@ pub fn run_case(c: &Case, with_mock: bool) -> Outcome {
         ));
     };
     let w = witness_map(c);
+    // variables whose names are also constant literals: where they are bound and whether used
+    {
+        let is_lit = |n: &String| crate::gen::LITERAL_NAMES.contains(&n.as_str());
+        let mut bound: Vec<&String> = vec![];
+        for i in &c.prog {
+            if i.inputs.iter().any(|n| bound.contains(&n)) {
+                tags.push("literal-like-name:used-as-input-after-binding".into());
+            }
+            if i.outputs.iter().any(is_lit) {
+                tags.push(if matches!(i.operation, Operation::Load(_)) { "literal-like-name:bound-by-Load".into() } else { "literal-like-name:bound-as-operation-output".into() });
+                bound.extend(i.outputs.iter().filter(|n| is_lit(n)));
+            }
+        }
+    }
     let mut sections: Vec<String> = vec![];
     let mut hash_table: Vec<String> = vec![];
 
@@ -276,6 +310,20 @@ pub fn run_case(c: &Case, with_mock: bool) -> Outcome {
                         ov.iter().map(fmt_val).collect::<Vec<_>>().join(",")
                     ));
                     if let Some(hk) = is_hash(&ins.operation) {
+                        // the digest belongs to the input values BEFORE the instruction: an output
+                        // name may shadow a constant literal used as its input (`sha512;b0;b0`)
+                        let iv_before: Vec<IrValue> = if ins.outputs.iter().any(|o| ins.inputs.contains(o)) {
+                            let mut p0: Vec<Instruction> = c.prog[..k].to_vec();
+                            let nb0: usize = c.prog[..k].iter().filter(|i| i.operation == Operation::Publish).map(|i| i.inputs.len()).sum();
+                            p0.push(Instruction { operation: Operation::Publish, inputs: ins.inputs.clone(), outputs: vec![] });
+                            match eval_off(&p0, &w) {
+                                Off::Ok(v0) => v0[nb0.min(v0.len())..].to_vec(),
+                                _ => vec![],
+                            }
+                        } else {
+                            iv.to_vec()
+                        };
+                        let iv = &iv_before[..];
                         if let (Some(key), [o]) = (hash_key(hk, iv), ov) {
                             let t = format!("{hk}:{key}={}", hash_out(o));
                             if !hash_table.contains(&t) {
@@ -357,6 +405,46 @@ pub fn run_case(c: &Case, with_mock: bool) -> Outcome {
             fail("inserting Publish instructions changes the verdict of the in-circuit pass", json!({"cmp": cmp_s, "shp": shp_s}));
         }
         sections.push(format!("shp:{shp_s}"));
+
+        // 3a'. HOW the comparisons are carried out: for every AssertEqual / AssertNotEqual /
+        // IsEqual instruction k, the number of native `is_equal` gadget calls (regions named
+        // "is_equal (i)", native_chip.rs: is_equal) and of "Assert equal" regions that the
+        // instruction itself lays out = regions of the witness-free synthesis of prog[..=k] minus
+        // those of prog[..k]. `is_equal_incircuit` on Bytes(n) compares byte by byte: n calls; on a
+        // BigUint limb by limb; on a point coordinate by coordinate. Stops at the first prefix
+        // that does not synthesize.
+        let ieq_s = {
+            let count = |names: &[String]| -> (usize, usize) {
+                (names.iter().filter(|n| n.as_str() == "is_equal (i)").count(), names.iter().filter(|n| n.as_str() == "Assert equal").count())
+            };
+            let mut out: Vec<String> = vec![];
+            for (k, ins) in c.prog.iter().enumerate() {
+                if !matches!(ins.operation, Operation::IsEqual | Operation::AssertNotEqual | Operation::AssertEqual) {
+                    continue;
+                }
+                match (region_names_of(&c.prog[..k]), region_names_of(&c.prog[..=k])) {
+                    (Ok(a), Ok(b)) => {
+                        let (e0, a0) = count(&a);
+                        let (e1, a1) = count(&b);
+                        out.push(format!("{k}:{}/{}", e1 as i64 - e0 as i64, a1 as i64 - a0 as i64));
+                    }
+                    _ => break,
+                }
+            }
+            tags.push(format!("ieq:comparisons-observed:{}", out.len().min(3)));
+            out.join(",")
+        };
+        sections.push(format!("ieq:{ieq_s}"));
+
+        // 3a''. which chips the compiled circuit configures (`zkir.rs: used_chips`)
+        {
+            let a = rel.used_chips();
+            let others = a.sha3_256 || a.keccak_256 || a.blake2b || a.secp256k1 || a.bls12_381 || a.automaton || a.base64;
+            sections.push(format!(
+                "arch:jubjub={},poseidon={},sha2_256={},sha2_512={},others={},pow2range_cols={}",
+                a.jubjub as u8, a.poseidon as u8, a.sha2_256 as u8, a.sha2_512 as u8, others as u8, a.nr_pow2range_cols
+            ));
+        }
 
         // 3b. typing verdicts of the two passes: a program rejected by one interpreter for a
         // typing reason must be rejected by the other one as well. The only tolerated gap is the
@@ -460,6 +548,51 @@ pub fn run_case(c: &Case, with_mock: bool) -> Outcome {
                                 "off-circuit evaluation succeeds but the compiled circuit rejects its public inputs",
                                 json!({"mock": v}),
                             );
+                        }
+                    }
+                    // dishonest public input: with a published Boolean flipped, the same witness
+                    // must NOT satisfy the circuit (the instance is bound to the computed value)
+                    if v == "sat" {
+                        let flips: Vec<usize> = inst.iter().enumerate().filter(|(_, (x, _))| matches!(x, IrValue::Bool(_))).map(|(i, _)| i).take(2).collect();
+                        for fi in flips {
+                            let mut forged = inst.clone();
+                            if let IrValue::Bool(b) = forged[fi].0 {
+                                forged[fi].0 = IrValue::Bool(!b);
+                            }
+                            if let Ok(Ok(pi2)) = catch(|| ZkirRelation::format_instance(&forged)) {
+                                let v2 = mock(&c.prog, &w, forged.clone(), pi2);
+                                tags.push(format!("forged-bool-instance:{v2}"));
+                                if v2 == "sat" {
+                                    fail(
+                                        "the compiled circuit accepts a forged public input (a published Boolean flipped) with the same witness",
+                                        json!({"flipped-public-input-index": fi, "off-circuit-value": fmt_val(&inst[fi].0)}),
+                                    );
+                                }
+                            }
+                        }
+                    }
+                    // ... and the same for the raw instance column: the first and the last public
+                    // input moved by one must not be accepted either (every published value is
+                    // bound to the instance column)
+                    // (not for programs of the recorded finding N7: a Jubjub scalar built from no
+                    // byte is published off-circuit as one element and in-circuit as none)
+                    if v == "sat" && !pi.is_empty() && long_scalars(&c.prog, &trace_vals).is_empty() {
+                        use ff::Field;
+                        let mut idx = vec![0usize];
+                        if pi.len() > 1 {
+                            idx.push(pi.len() - 1);
+                        }
+                        for j in idx {
+                            let mut pi2 = pi.clone();
+                            pi2[j] += F::ONE;
+                            let v2 = mock(&c.prog, &w, inst.clone(), pi2);
+                            tags.push(format!("perturbed-raw-public-input:{v2}"));
+                            if v2 == "sat" {
+                                fail(
+                                    "the compiled circuit accepts a forged public input (a raw instance value moved by one) with the same witness",
+                                    json!({"raw-public-input-index": j}),
+                                );
+                            }
                         }
                     }
                     v
